@@ -178,6 +178,11 @@ def ownership_rules(prog, res, rule_prefix='own'):
                     # the value comes out of a library function the rule does not recognise as an allocation wrapper, and it is not another object's handle
                     res.undecided(R('fresh-handle'), '%s::%s' % (q, h), f.loc(nid), 'handle %s is assigned from the result of a function the rule cannot classify as a fresh allocation [shape not read by the rule]' % h,
                                   function=f.sig, expr=h)
+                elif rhs is not None and root_of(f, rhs)[0] == 'local' and f.nodes[nid]['k'] == 'CXXMemberCallExpr' and f.nodes[nid]['callee']['name'] == 'swap':
+                    # the handle is swapped with the handle of a local object of this function (a staging object that dies at the end of the call): ownership is
+                    # taken over, not shared - provided the local's own handle was fresh, which this clause does not follow
+                    res.undecided(R('fresh-handle'), '%s::%s' % (q, h), f.loc(nid), 'handle %s is swapped with the handle of a local object: whether that object held a fresh payload is not followed '
+                                  '[shape not read by the rule]' % h, function=f.sig, expr=h)
                 else:
                     res.viol(R('fresh-handle'), '%s::%s' % (q, h), f.loc(nid),
                              'handle %s is assigned from something that is not a fresh allocation: the object now shares its payload' % h,
